@@ -216,6 +216,9 @@ def reload_cases(tier, seed):
         s = wc.Script()
         deb0 = rng.choice([1, 2])
         cfg = wc.setup_world(s, wc.base_cfg(deb=deb0))
+        if rng.random() < 0.3:
+            # -c given in a spelling that is not canonical: it is the same file, and rewriting it is a reload
+            s.cfg_spelling = rng.choice([wc.R + "/w//cfg/klunok.lua", wc.R + "/w/./cfg/klunok.lua", wc.R + "/w/cfg/../cfg/klunok.lua", "/" + wc.CFG_PATH])
         s.start()
         # the editor is a script, or a dynamically linked binary whose loader the daemon learns from the image; in the
         # second case the process executes that loader at some later point (as the kernel reports it), possibly after
